@@ -186,12 +186,14 @@ class PropertyValue(css_parser.util._NewBase):
                 ok = False
                 break
 
-        self.wellformed = ok
         if ok:
+            self.wellformed = ok
             self._setSeq(seq)
         else:
+            # report first: a raised error must leave this value as it was
             self._log.error('PropertyValue: Unknown syntax or no value: %s' %
                             self._valuestr(cssText))
+            self.wellformed = ok
 
     cssText = property(lambda self: css_parser.ser.do_css_PropertyValue(self),
                        _setCssText,
